@@ -197,9 +197,9 @@ Definition truthy (m : mode) (v : val) : out bool :=
    every mode since the repair of or.go; the mode argument is kept for uniformity with the other switches) *)
 Definition or_step (m : mode) (v : val) : out (option val) :=
   Ok (if is_nil (primary v) then None else Some (primary v)).
-(* mapcar stores what the call returned, dolist / dotimes look at the object their list / count form returned: the
-   language takes the primary value, Go keeps the Values object.  (setq and a cond clause without forms return the
-   primary value in every mode since the repairs of setq.go and cond.go.) *)
+(* dolist / dotimes look at the object their list / count form returned: the language takes the primary value, Go
+   keeps the Values object.  (setq, a cond clause without forms and mapcar take the primary value in every mode since
+   the repairs of setq.go, cond.go and mapcar.go.) *)
 Definition last_red (m : mode) (v : val) : out val :=
   match m with
   | Slip => Ok v
@@ -421,9 +421,8 @@ Fixpoint ev_map (st : state) (c : callable) (rows : list (list val)) : res (list
   match rows with
   | [] => (Ok [], st)
   | row :: rows' =>
-      bind (apply_fn st c row) (fun v st1 =>
-      bindo (last_red m v) st1 (fun a =>
-      bind (ev_map st1 c rows') (fun vs st2 => (Ok (a :: vs), st2))))
+      bind (apply_fn st c row) (fun v st1 =>                  (* the primary value of each call (after the repair) *)
+      bind (ev_map st1 c rows') (fun vs st2 => (Ok (primary v :: vs), st2)))
   end.
 (* dolist / dotimes: the variable lives in cell 0 of frame f *)
 Fixpoint ev_iter (st : state) (sc : scope) (f : nat) (x : string) (vs : list val) (es : list expr) : res unit :=
